@@ -44,10 +44,12 @@ type Opaque struct {
 }
 
 type Obj struct {
-	ID     int
-	Cells  []Val
-	Site   string
-	Global bool
+	ID        int
+	Cells     []Val
+	Site      string
+	Global    bool
+	Released  bool // handed back to a sync.Pool
+	PoolOwned bool // obtained from a sync.Pool: private to the goroutine until Put
 }
 
 type Ptr struct {
